@@ -5,6 +5,7 @@ import ExprModel.Proofs.ParserFuel
 import ExprModel.Proofs.ParserCanonAll2
 import ExprModel.Proofs.ParserErase5
 import ExprModel.Proofs.ParseLayout5
+import ExprModel.Proofs.ParseLexNum
 import ExprModel.Syntax.ParserNum
 import ExprModel.Props.C12
 /-
@@ -149,6 +150,41 @@ structure ImageSetting (cfg : Cfg) : Prop where
 theorem ImageSetting.hyp {cfg : Cfg} (h : ImageSetting cfg) : ImgHyp cfg :=
   ⟨h.num_ok, h.float_ok, by rw [h.tables]; exact builtin_arities⟩
 
+/-- **`Setting ∧ ImageSetting` hold for the real integer conversion.**  `guardedNum Gen.numCfg pf` is the
+    lexer model's `parseNumber` (strconv.ParseInt behind the classification chain regenerated from parser.go) on
+    the texts a Number token can have (first rune a digit or `.`: what the lexer produces; other texts, which
+    no lexer output contains, are refused), integers printed in decimal.  The float side stays a parameter:
+    `pf` (strconv.ParseFloat) yields only literal-denotable bit patterns, and the printed float `sf b` reads back. -/
+theorem lexnum_setting (pf : String → Option UInt64) (sf : UInt64 → String) (bad : String → Bool)
+    (hpf : ∀ text b, pf text = some b → floatLit b = true)
+    (hfloat : ∀ b, floatLit b = true → guardedNum Gen.numCfg pf (sf b) = some (.float b)) :
+    let cfg : Cfg := { tb := Gen.parserTables, num := guardedNum Gen.numCfg pf, badRegex := bad }
+    let sh : NumShow := { showInt := fun n => C12.decimalSpelling n [], showFloat := sf }
+    Setting cfg sh ∧ ImageSetting cfg := by
+  intro cfg sh
+  refine ⟨⟨rfl, ?_, hfloat⟩, ⟨rfl, ?_, ?_⟩⟩
+  · intro n hn
+    show guardedNum Gen.numCfg pf (C12.decimalSpelling n []) = some (.int n)
+    have hne := Lex.digitsOf_ne_nil 10 n
+    have hlt := Lex.digitsOf_lt 10 (by decide) n
+    have htl : (C12.decimalSpelling n []).toList = (Lex.digitsOf 10 n).map Lex.decChar := by
+      simp [C12.decimalSpelling, withSeps_nil]
+    unfold guardedNum
+    rw [htl]
+    cases hd : Lex.digitsOf 10 n with
+    | nil => exact absurd hd hne
+    | cons d ds =>
+      simp only [List.map_cons]
+      have hdig := Lex.decChar_digit d (hlt d (by rw [hd]; simp))
+      rw [if_pos (Or.inl hdig)]
+      unfold numVia
+      rw [C12.decimal_roundtrip_code n hn []]
+  · intro s v h
+    exact guardedNum_int_range Gen.numCfg pf s v h
+  · intro s b h
+    obtain ⟨text, ht⟩ := guardedNum_float Gen.numCfg pf s b h
+    exact hpf text b ht
+
 /-- **The image of the parser is canonical**: whatever tree the parser model returns — for any fuel and any
     token list whose EOF tokens do not carry the value `?.` (the lexer's EOF has the empty value) — satisfies
     `canon`: every operator is in the tables, `matches` carries a compiled pattern iff its right operand is a
@@ -236,8 +272,9 @@ theorem parse_locations_irrelevant (cfg : Cfg) {ts ts' : List Token} (h : noLocs
     identifier, keyword or number no alphanumeric rune (nor `.` after a number); after `?` no `.`; after `?.` no
     `?`/`.`; after `.` no `.`/digit; after `<`, `>`, `!`, `*` none of `& | = *`; after `not` not blanks-`in`-blank;
     after `not in` a blank or the end).  Then `lex` yields the printed tokens up to locations and `parse` yields
-    `t` up to locations.  Hypothesis `hprint`: every printed token has a proved spelling (`Printable`: all but
-    float literals and identifiers that collide with keywords). -/
+    `t` up to locations.  Hypothesis `hprint`: every printed token has a proved spelling (`Printable`: every operator, bracket and
+    string; numbers whose text is digits, optional fraction, optional exponent; identifiers that do not collide with
+    keywords — a printed member name such as `a.in` is an Identifier token that the lexer would read as an operator). -/
 theorem whitespace_invariance {cfg : Cfg} {sh : NumShow} (hs : Setting cfg sh) (t : Node) (hc : canon cfg 0 t = true)
     (pc : ParenChoice) (cc : Lex.CharClass) (hcc : cc.AsciiExact) (gaps : List (List Char)) (trail : List Char)
     (hlen : (pr cfg sh pc [] 0 (eofAt {}) t).length = gaps.length)
@@ -275,13 +312,13 @@ theorem whitespace_invariance_rule {cfg : Cfg} {sh : NumShow} (hs : Setting cfg 
       parse cfg toks = .ok t' ∧ t'.eraseLoc = t.eraseLoc :=
   whitespace_invariance hs t hc pc cc hcc gaps trail hlen hprint (layout_rule cc hcc hsw _ gaps trail hlen hprint hsep)
 
-/-- What is left of the text-level statement: float literals.  Their spelling is a parameter of the printer
-    (`showFloat`), so `Printable` excludes them; what is needed is that a well-formed decimal/exponent spelling
-    (C12's `FloatParts`, lexed there alone in the source: `float_lexes`) is read back whatever follows it that is
-    not alphanumeric and not `.` — the analogue of `Lex.spells_decimal`. -/
-def float_spelling_goal : Prop :=
-  ∀ (cc : Lex.CharClass), cc.AsciiExact → ∀ (p : Lex.FloatParts), p.WF →
-    Lex.Spells cc .number (String.ofList p.text) p.text (Lex.IntFollow cc)
+/-- **Number spellings**: digits (with `_` separators), an optional fraction and an optional exponent with at
+    least one digit — decimal integers and every decimal/exponent float spelling — are read back by the lexer
+    whatever follows them that is neither alphanumeric nor `.`.  This makes float tokens `Printable` whenever
+    the printer's `showFloat` produces such a spelling (as strconv.FormatFloat does for finite values, cf. C12). -/
+theorem float_spelling (cc : Lex.CharClass) (hcc : cc.AsciiExact) (p : Lex.FloatParts) (hp : p.WF)
+    (hx : p.ExpDigits) : Lex.Spells cc .number (String.ofList p.text) p.text (Lex.IntFollow cc) :=
+  Lex.spells_float hcc p hp hx
 
 /-! ### Non-vacuity and the witness of the one deviation found -/
 
